@@ -88,6 +88,10 @@ class Sched:
         self._since_timer = 0
         self._dispatching = False
         self.query_yield_p = 0.25
+        self.pct_d = 2
+        self.pct_horizon = 3000
+        self._pct_points = None
+        self._pct_prio = {}
         self.hot_p = 0.0
         main = Task(0, 'main')
         main.thread = threading.current_thread()
@@ -179,6 +183,24 @@ class Sched:
             return r[0]
         if self.policy == 'sticky' and cur in r and self.rng.random() >= self.sticky_p:
             return cur
+        if self.policy == 'pct':
+            # PCT (Burckhardt et al.): random static priorities, the highest-priority runnable task runs;
+            # at d seeded change points the running task drops below everybody else
+            if self._pct_points is None:
+                self._pct_points = sorted(self.rng.randrange(1, self.pct_horizon) for _ in range(self.pct_d))
+                self._pct_low = 0
+            while self._pct_points and self.steps >= self._pct_points[0]:
+                self._pct_points.pop(0)
+                self._pct_low -= 1
+                self._pct_prio[cur.id] = self._pct_low
+            best = None
+            for t in r:
+                pr = self._pct_prio.get(t.id)
+                if pr is None:
+                    pr = self._pct_prio[t.id] = self.rng.random() + 1.0
+                if best is None or pr > best[0]:
+                    best = (pr, t)
+            return best[1]
         return r[self.rng.randrange(len(r))]
 
     def _dispatch(self, cur, finished=False):
